@@ -345,8 +345,9 @@ def run(h: Harness):
                 if not c.abstract and rng.random() < 0.5:
                     c.weight = rng.choice([1, 2, 3, 0.5, 0, 0.0])   # (0: a switched-off production is still a production)
             # (a rule whose productions are ALL switched off cannot be normalised: out of the domain, see C19)
+            # (the rule of `a` consists of its REGISTERED direct subclasses: the listed ones and abstract intermediates)
             for a in range(len(spec.classes)):
-                kids = [c for c in spec.classes if c.parent == a]
+                kids = [c for i, c in enumerate(spec.classes) if c.parent == a and (i in spec.considered or c.abstract)]
                 if kids and all(c.weight is not None and c.weight == 0 for c in kids):
                     kids[0].weight = 2
             h.count("weighted-spec" + ("-expansion" if exp else ""))
